@@ -606,7 +606,13 @@ def brownian(rep, rng, quick, dd, run, todo):
         lo = float(rng.choice([0.0, -3.0, 100.0]))
         step = float(rng.choice([0.05, 0.125, 1.0, 2.5]))
         t = lo + step * np.arange(m)
-        kind = ["regular", "one-step-off", "jitter", "geometric", "linspace", "reversed-step"][i % 6]
+        kind = ["regular", "one-step-off", "jitter", "geometric", "linspace", "reversed-step", "interior-point-moved"][i % 7]
+        if kind == "interior-point-moved":
+            # end points and first step kept (so the MEAN step equals the first step), one interior point moved
+            m = max(m, 5)
+            t = lo + step * np.arange(m)
+            j = int(rng.integers(2, m - 1))
+            t[j] += step * float(rng.choice([0.4, -0.4, 0.25]))
         if kind == "one-step-off":
             j = int(rng.integers(1, m))
             t[j:] += step * float(rng.choice([1e-3, 0.01, 0.5, -0.3]))
